@@ -46,12 +46,29 @@ impl Config for CfgDefault {
     type Address = Addr;
 }
 
+/// A custom predictor that is NOT idempotent (predict(predict(x)) != predict(x)): outside C01's space
+/// ("both shipped predictors"); used only by the exploratory family `fam_custom_predictor`.
+pub struct PredictInc;
+impl ggrs::InputPredictor<Inp> for PredictInc {
+    fn predict(previous: Inp) -> Inp {
+        Inp((previous.0 + 1) % 6)
+    }
+}
+pub struct CfgInc;
+impl Config for CfgInc {
+    type Input = Inp;
+    type InputPredictor = PredictInc;
+    type State = GState;
+    type Address = Addr;
+}
+
 #[derive(Clone, Debug, Default)]
 pub struct ScenCfg {
     pub players: usize,
     pub window: usize,
     pub sparse: bool,
     pub pred_repeat: bool,
+    pub pred_inc: bool,
     pub desync: u32,
     pub fps: usize,
     pub timeout: u64,
@@ -118,7 +135,10 @@ pub fn parse(lines: &[String]) -> Vec<Scenario> {
                         "players" => c.players = v.parse().unwrap(),
                         "window" => c.window = v.parse().unwrap(),
                         "sparse" => c.sparse = v == "1",
-                        "pred" => c.pred_repeat = v == "repeat",
+                        "pred" => {
+                            c.pred_repeat = v == "repeat";
+                            c.pred_inc = v == "inc";
+                        }
                         "desync" => c.desync = v.parse().unwrap(),
                         "fps" => c.fps = v.parse().unwrap(),
                         "timeout" => c.timeout = v.parse().unwrap(),
@@ -807,7 +827,7 @@ where
                             1 if !is_local => {
                                 // Predicted = predictor applied to the newest real input received (C03)
                                 let l = status[h].1;
-                                let want = if l < 0 { Some(0) } else { truth.borrow().get(&h).and_then(|t| t.get(l as usize)).map(|t| predict(cfg.pred_repeat, *t)) };
+                                let want = if l < 0 { Some(0) } else { truth.borrow().get(&h).and_then(|t| t.get(l as usize)).map(|t| if cfg.pred_inc { (*t + 1) % 6 } else { predict(cfg.pred_repeat, *t) }) };
                                 if l >= *f {
                                     out.hit("C03", "predicted-although-received", &scen, &format!(
                                         "peer {id}: player {h} frame {f} handed out as Predicted although inputs up to frame {l} were received"));
@@ -1370,7 +1390,9 @@ pub fn run() {
             for r in 0..runs {
                 let mut o = Out { lines: Vec::new() };
                 let rs = guarded(|| {
-                    if sc.cfg.pred_repeat {
+                    if sc.cfg.pred_inc {
+                        run_scenario::<CfgInc>(sc, sc.cfg.seed.wrapping_add(r * 7919), &mut o)
+                    } else if sc.cfg.pred_repeat {
                         run_scenario::<CfgRepeat>(sc, sc.cfg.seed.wrapping_add(r * 7919), &mut o)
                     } else {
                         run_scenario::<CfgDefault>(sc, sc.cfg.seed.wrapping_add(r * 7919), &mut o)
